@@ -3,6 +3,8 @@ from __future__ import annotations
 
 import os
 
+from pathlib import Path
+
 from . import common, fsrun
 from .common import Stream
 
@@ -218,10 +220,70 @@ def classify_pairs(case, obs):
             "model:" + str(obs.get("model_real", "?"))[:10]]
 
 
+# ------------------------------------------------------------------ moves across two file systems (path mode)
+def gen_crossdev(rng, n, tier):
+    for _ in range(n):
+        yield {"files": rng.randint(1, 3), "strategy": rng.choice(["stop", "ignore", "override"]),
+               "occupied": rng.random() < 0.3, "seed": rng.randrange(1 << 30)}
+
+
+def impl_crossdev(case):
+    """the input directory contains `inbox`, a link to a directory on another file system (/dev/shm); the files gathered
+    through it are moved to `collected/<name>` inside the input directory: rename(2) cannot do that, shutil.move copies"""
+    import tempfile
+    shm = "/dev/shm"
+    if not (os.path.isdir(shm) and os.access(shm, os.W_OK)):
+        return {"skipped": "no second file system"}
+    spec = {"in": None, "in/keep.txt": "K"}
+    if case["occupied"]:
+        spec["in/collected"] = None
+        spec["in/collected/f0.dat"] = "OCCUPANT"
+    with common.Sandbox(spec) as root, tempfile.TemporaryDirectory(prefix="tv_far_", dir=shm) as far:
+        if os.stat(far).st_dev == os.stat(root).st_dev:
+            return {"skipped": "no second file system"}
+        contents = {}
+        for i in range(case["files"]):
+            contents[f"f{i}.dat"] = f"content {i} {case['seed']}"
+            (Path(far) / f"f{i}.dat").write_text(contents[f"f{i}.dat"])
+        os.symlink(far, root / "in" / "inbox")
+        args = [fsrun.STRATEGY_FLAG[case["strategy"]], "-p", "-r", "--", "collected/%Name()", str(root / "in")]
+        out = {}
+        for which, extra in (("dry", ["--dry-run"]), ("real", [])):
+            so, se, rc = common.run_cli(extra + args)
+            out[which] = {"rc": rc, "events": [list(e) for e in common.parse_events(so)], "err": se.strip()[-200:]}
+            if which == "dry":
+                out["dry_changed"] = sorted(os.listdir(far)) != sorted(contents) or (root / "in" / "collected").exists() != case["occupied"]
+        coll = root / "in" / "collected"
+        out["collected"] = {p.name: p.read_text() for p in sorted(coll.iterdir())} if coll.is_dir() else {}
+        out["left"] = sorted(os.listdir(far))
+        out["contents"] = contents
+        return out
+
+
+def oracle_crossdev(case, obs):
+    if "skipped" in obs:
+        return None
+    if obs["dry_changed"]:
+        return "the dry run changed a tree"
+    dry, real = obs["dry"], obs["real"]
+    if (dry["rc"], dry["events"]) != (real["rc"], real["events"]):
+        return (f"across two file systems: dry run status {dry['rc']} renames {dry['events'][:3]}; real run status {real['rc']} "
+                f"renames {real['events'][:3]} ({real['err'][-120:]!r})")
+    for src, dst, ov in real["events"]:
+        name = os.path.basename(src)
+        if src.startswith("inbox/") and (obs["collected"].get(name) != obs["contents"].get(name) or name in obs["left"]):
+            return f"{src!r} is reported as moved to {dst!r} but the content is not there (or the source is still in place)"
+    return None
+
+
 def streams(tier):
     from .c01 import shrink_runs
     return [
         Stream("dry_vs_real", gen_pairs, impl_pairs, lambda c: ["isspace 0 1"], lambda c, a: {}, oracle=oracle_pairs,
                compare=compare_pairs, nontrivial=lambda c, o: bool(o["real"]["events"]), classify=classify_pairs,
                shrink=shrink_runs, parallel=True, quick=2000, thorough=25000),
+        Stream("crossdev", gen_crossdev, impl_crossdev, oracle=oracle_crossdev, parallel=True,
+               nontrivial=lambda c, o: "skipped" not in o and bool(o["real"]["events"]),
+               classify=lambda c, o: ["skipped" if "skipped" in o else "two-filesystems", "strategy:" + c["strategy"]],
+               quick=12, thorough=60),
     ]
